@@ -501,6 +501,26 @@ def _model_inputs(model, env_inputs):
     return vals
 
 
+class ParticleModel:
+    """a concrete witness of the path exploration (exact rationals / floats per base variable) presented with the small
+    part of the z3 model interface that _model_inputs / _model_rand use"""
+
+    def __init__(self, particle):
+        self.p = particle
+
+    def eval(self, t, model_completion=True):
+        name = t.decl().name() if z3.is_const(t) else None
+        v = self.p.get(name, 0) if name is not None else 0
+        if z3.is_bool(t):
+            return z3.BoolVal(bool(v))
+        if z3.is_bv(t):
+            return z3.BitVecVal(int(v), t.size())
+        if z3.is_int(t):
+            return z3.IntVal(int(v))
+        fr = v if isinstance(v, Fraction) else Fraction(float(v)).limit_denominator(10 ** 12)
+        return z3.RealVal(str(fr))
+
+
 def _grid_model(hyps, g, ctx, env, qs, step=16, timeout_ms=6000):
     """a model of hyps and not g in which every real input symbol and every random draw is k/step for an integer k"""
     try:
@@ -908,6 +928,29 @@ def _run_case(case, cfg):
                 if verdict == "unsat":
                     rep.setdefault("ladder", {})
                     rep["ladder"]["split"] = rep["ladder"].get("split", 0) + 1
+            if verdict == "unknown" and isinstance(g, z3.ExprRef) and hasattr(ctx, "particles"):
+                try:
+                    ctx._replenish()
+                except Exception:
+                    pass
+                # the solver could not decide: a concrete witness of this path on which the goal evaluates to FALSE is a
+                # candidate counterexample -- the real code is the arbiter (replay), the solver verdict stays "unknown"
+                for part in list(ctx.particles)[:6]:
+                    try:
+                        if ctx._consistent(part) and ctx._peval(g, part) is False:
+                            viol = _confirm(case, gname, ParticleModel(part), ctx, env, goal_index=gi, cfg=cfg,
+                                            obligation=gname.startswith("defined["))
+                            rep["replays"] += 1
+                            if viol["reproduced"]:
+                                viol["detail"] += " (solver inconclusive; concrete witness of the path exploration, confirmed on the real code)"
+                                rep["sat"] += 1
+                                rep["violations"].append(viol)
+                                verdict = "witness"
+                                break
+                    except Exception:
+                        continue
+                if verdict == "witness":
+                    continue
             if verdict == "unsat":
                 rep["unsat"] += 1
                 if cfg.get("cross") and len(qs.cross) < cfg["cross_per_case"] and isinstance(g, z3.ExprRef):
